@@ -110,103 +110,7 @@ def unpack_impl(pkt, raw, offset, **k):
         cookie = cookie_hash.hexdigest()
         cookie_code = f"BISTURI_PACKET_COOKIE = '{cookie}'\n"
 
-        # From which file we got the packet class?
-        try:
-            pkt_definition_fpath = inspect.getfile(self.pkt_class)
-        except TypeError:
-            # For builtins packet classes (like the ones created in a
-            # interactive shell session) will not have a file associated
-            # Assume current workign directory as the location for the code
-            # generated
-            pkt_definition_fpath = './__main__.py'
-
-        pkt_definition_fpath = os.path.abspath(pkt_definition_fpath)
-
-        # We will write the generated code in the same folder
-        # that the file above was found, so get its path
-        folder = os.path.dirname(pkt_definition_fpath)
-
-        # But put the code in a subfolder named __pkts__
-        folder = os.path.join(folder, '__pkts__')
-
-        # Get also the name of the filename (without the extension)
-        pkt_definition_module = os.path.splitext(
-            os.path.basename(pkt_definition_fpath)
-        )[0]
-
-        # Create the new module name based on the original module name
-        # and packet class name
-        module_name = "%s_%s" % (
-            pkt_definition_module, self.pkt_class.__name__
-        )
-
-        # Full path for the new module
-        module_pathname = os.path.join(folder, module_name + ".py")
-
-        # Try to import it first, if exists
-        module = None
-        if os.path.exists(module_pathname):
-            try:
-                module = SourceFileLoader(module_name,
-                                          module_pathname).load_module()
-            except Exception:
-                # a truncated, broken or foreign file is as good as no file
-                module = None
-
-        # If no previously written module exists or its cooke does not match
-        # ours, recreate the file and reload it
-        if not module or getattr(
-            module, 'BISTURI_PACKET_COOKIE', None
-        ) != cookie:
-            # Delete the compiled file (.pyc)
-            if module and hasattr(module, '__cached__'):
-                module_compiled_filename = module.__cached__
-            else:
-                module_compiled_filename = module_name + ".pyc"
-
-            if os.path.exists(module_compiled_filename):
-                os.remove(module_compiled_filename)
-
-            # creates folder to host our generated code
-            os.makedirs(folder, exist_ok=True)
-
-            # write the module aside and rename it into place so nobody
-            # can ever see (and load) a half written file
-            # the cookie goes last: a file that has it is a complete file
-            source = import_code + pack_code + unpack_code + cookie_code
-            tmp_pathname = "%s.%i.tmp" % (module_pathname, os.getpid())
-            with open(tmp_pathname, 'w') as module_file:
-                module_file.write(source)
-
-            os.replace(tmp_pathname, module_pathname)
-
-            # load it (again); somebody else may have replaced the file in
-            # the meantime with the code of another packet class so we trust
-            # in it only if it carries our cookie
-            try:
-                module = SourceFileLoader(module_name,
-                                          module_pathname).load_module()
-            except Exception:
-                module = None
-
-            if not module or getattr(
-                module, 'BISTURI_PACKET_COOKIE', None
-            ) != cookie:
-                module = types.ModuleType(module_name)
-                exec(
-                    compile(source, module_pathname, 'exec'), module.__dict__
-                )
-
-        from bisturi.packet import Packet
-        if self.generate_for_pack and (
-            self.pkt_class.pack_impl == Packet.pack_impl
-        ):
-            self.pkt_class.pack_impl = module.pack_impl
-
-        if self.generate_for_unpack and (
-            self.pkt_class.unpack_impl == Packet.unpack_impl
-        ):
-            self.pkt_class.unpack_impl = module.unpack_impl
+        HOLE_STMTS_cache
 
     def generate_unrolled_code_for_descriptor_sync(self, sync_for_pack):
         if sync_for_pack:
